@@ -31,10 +31,14 @@ CONSTANTS
   Extras,                 \* extra behaviours: "badepic", "badid", "text", "results", "chains", "flags"
   PlanDocs,               \* menu of plan documents
   ViewMode,               \* "graph" | "timed" | "log"
-  Emit                    \* "none" | "states" | "leaves"
+  Emit,                   \* "none" | "states" | "leaves"
+  CraftMode, CraftN, CraftTasks, CraftEpics
+                          \* initial stores.  "empty": the empty store; "random": CraftN stores
+                          \* drawn at random from all crafted shapes over CraftTasks tasks and
+                          \* CraftEpics epics (logs that commands cannot produce are included)
 
-VARIABLES log, now, nid, gone, last, hist
-vars == <<log, now, nid, gone, last, hist>>
+VARIABLES log, now, nid, gone, last, hist, base
+vars == <<log, now, nid, gone, last, hist, base>>
 
 Props == INSTANCE ErgoProps
 
@@ -136,7 +140,62 @@ Alphabet(g) == NewTaskCmds(g) \cup NewEpicCmds(g) \cup SetCmds(g) \cup ResultCmd
 (* Behaviour.                                                              *)
 (***************************************************************************)
 NoCmd == [name |-> "init", mode |-> "json"]
-Init == /\ log = <<>> /\ now = 0 /\ nid = 0 /\ gone = {}
+
+(***************************************************************************)
+(* Crafted initial stores: every combination of kind, state, claim (legal  *)
+(* or not), epic membership, task dependencies and epic dependencies over  *)
+(* CraftTasks tasks and CraftEpics epics, written as a log by hand: the  *)
+(* epics first, then the tasks, then claims, states and links.  TLC draws  *)
+(* CraftN of them at random (seeded by -seed).                            *)
+(***************************************************************************)
+CE == {Id(k) : k \in 1..CraftEpics}
+CT == {Id(k) : k \in (CraftEpics + 1)..(CraftEpics + CraftTasks)}
+StateClaims == States \X {"", "a1"}
+CraftLog(sc, ep, deps, edeps) ==
+  LET ne == CraftEpics
+      nt == CraftTasks
+      claimed == {t \in CT : sc[t][2] # ""}
+      moved   == {t \in CT : sc[t][1] # "todo"}
+      cs == SetToSeq(claimed)
+      ms == SetToSeq(moved)
+      ds == SetToSeq(deps \cup edeps)
+  IN [k \in 1..ne |-> EvNew("epic", Id(k), "", "todo", "E" \o ToString(k), "", k)]
+     \o [k \in 1..nt |-> EvNew("task", Id(ne + k), ep[Id(ne + k)], "todo", "T" \o ToString(ne + k), "", ne + k)]
+     \o [k \in 1..Len(ms) |-> EvState(ms[k], sc[ms[k]][1], ne + nt + k)]
+     \o [k \in 1..Len(cs) |-> EvClaim(cs[k], sc[cs[k]][2], ne + nt + Len(ms) + k)]
+     \o [k \in 1..Len(ds) |-> EvLink("link", ds[k][1], ds[k][2], 0)]
+TaskPairs == {p \in CT \X CT : p[1] # p[2]}
+EpicPairs == {p \in CE \X CE : p[1] # p[2]}
+RandomCraft(k) ==     \* (the parameter only defeats TLC's caching of constant definitions)
+  LET sc    == RandomElement([CT -> StateClaims])
+      ep    == RandomElement([CT -> {""} \cup CE])
+      d0    == RandomElement(SUBSET TaskPairs)
+      deps  == IF Acyclic(d0) THEN d0 ELSE {}
+      e0    == RandomElement(SUBSET EpicPairs)
+      edeps == IF Acyclic(e0) THEN e0 ELSE {}
+  IN CraftLog(sc, ep, deps, edeps)
+
+\* legacy stores: untitled items whose title is derived from the body at read
+\* time, optionally with later body/state events
+LegacyCraft(k) ==
+  LET bodies == DOMAIN LegacyTable \cup {"", "plain body"}
+      b1 == RandomElement(bodies)
+      b2 == RandomElement(bodies)
+      t2 == RandomElement({"", "Titled"})
+      more == RandomElement(SUBSET {1, 2, 3, 4})
+  IN <<EvNew("epic", Id(1), "", "todo", "", b1, 1), EvNew("task", Id(2), Id(1), "todo", t2, b2, 2)>>
+     \o (IF 1 \in more THEN <<EvBody(Id(2), RandomElement(bodies), 3)>> ELSE <<>>)
+     \o (IF 2 \in more THEN <<EvState(Id(2), "done", 4)>> ELSE <<>>)
+     \o (IF 3 \in more THEN <<EvTitle(Id(1), "Named later", 5)>> ELSE <<>>)
+     \o (IF 4 \in more THEN <<EvBody(Id(1), RandomElement(bodies), 6)>> ELSE <<>>)
+
+Init == /\ IF CraftMode = "empty" THEN base = <<>>
+           ELSE IF CraftMode = "legacy" THEN \E k \in 1..CraftN : base = LegacyCraft(k)
+           ELSE \E k \in 1..CraftN : base = RandomCraft(k)
+        /\ log = base
+        /\ now = IF base = <<>> THEN 0 ELSE Len(base) + 2
+        /\ nid = IF base = <<>> THEN 0 ELSE IF CraftMode = "legacy" THEN 2 ELSE CraftTasks + CraftEpics
+        /\ gone = {}
         /\ last = [cmd |-> NoCmd, exit |-> 0, reply |-> Reply0, logpre |-> <<>>, gonepre |-> {}]
         /\ hist = <<>>
 
@@ -153,6 +212,7 @@ Do(c) ==
     /\ gone' = gone \cup Replay(r.log).tomb
     /\ last' = [cmd |-> c, exit |-> r.exit, reply |-> r.reply, logpre |-> log, gonepre |-> gone]
     /\ hist' = Append(hist, c)
+    /\ base' = base
 
 Next == Len(hist) < MaxDepth /\ \E c \in Alphabet(G) : Do(c)
 
@@ -240,10 +300,12 @@ StateView ==
 (***************************************************************************)
 NonString == {"newids", "ids", "doc", "rpathok", "yes", "again"}
 Present(c) == [k \in {f \in DOMAIN c : f \in NonString \/ c[f] # ABSENT} |-> c[k]]
-EmitLine == ToJson([hist  |-> [k \in 1..Len(hist) |-> Present(hist[k])],
+EmitLine == ToJson([base  |-> base,
+                    hist  |-> [k \in 1..Len(hist) |-> Present(hist[k])],
                     alpha |-> IF Len(hist) < MaxDepth THEN {Present(c) : c \in Alphabet(G)} ELSE {}])
 EmitInv ==
   CASE Emit = "states" -> PrintT("@ST " \o EmitLine)
     [] Emit = "leaves" -> (Len(hist) = MaxDepth => PrintT("@ST " \o EmitLine))
+    [] Emit = "roots"  -> (hist = <<>> => PrintT("@ST " \o EmitLine))
     [] OTHER -> TRUE
 =============================================================================
